@@ -34,6 +34,43 @@ type c12Step struct {
 	N  string `json:"n,omitempty"`
 }
 
+// c12Reuse: an entry is registered again with the SAME descriptor value (pointer) and a new handler: the new handler serves it.
+func c12Reuse() []map[string]interface{} {
+	srv := mcp.NewServer("verif", "1.0", mcp.WithServerPath("/mcp"), mcp.WithServerLogger(silentLogger{}), mcp.WithStatelessMode(true), mcp.WithPostSSEEnabled(false))
+	ts := httptest.NewServer(srv.Handler())
+	defer func() { closeClientConns(ts); closeTS(ts) }()
+	url := ts.URL + "/mcp"
+	ctx := context.Background()
+	text := func(body string) string {
+		r := peer.PostJSON(ctx, url, nil, []byte(body), false)
+		return string(r.Body)
+	}
+	tool := mcp.NewTool("same", mcp.WithDescription("d"))
+	prompt := &mcp.Prompt{Name: "same", Description: "d"}
+	res := &mcp.Resource{URI: "r://same", Name: "same"}
+	out := []map[string]interface{}{}
+	for _, v := range []string{"first", "second", "third"} {
+		v := v
+		srv.RegisterTool(tool, func(ctx context.Context, req *mcp.CallToolRequest) (*mcp.CallToolResult, error) {
+			return mcp.NewTextResult("H-" + v), nil
+		})
+		srv.RegisterPrompt(prompt, func(ctx context.Context, req *mcp.GetPromptRequest) (*mcp.GetPromptResult, error) {
+			return &mcp.GetPromptResult{Description: "H-" + v, Messages: []mcp.PromptMessage{}}, nil
+		})
+		srv.RegisterResource(res, func(ctx context.Context, req *mcp.ReadResourceRequest) (mcp.ResourceContents, error) {
+			return mcp.TextResourceContents{URI: "r://same", Text: "H-" + v}, nil
+		})
+		for kind, body := range map[string]string{
+			"tools":     `{"jsonrpc":"2.0","id":2,"method":"tools/call","params":{"name":"same","arguments":{}}}`,
+			"prompts":   `{"jsonrpc":"2.0","id":2,"method":"prompts/get","params":{"name":"same"}}`,
+			"resources": `{"jsonrpc":"2.0","id":2,"method":"resources/read","params":{"uri":"r://same"}}`} {
+			ans := text(body)
+			out = append(out, map[string]interface{}{"kind": kind, "registered": v, "served_by_it": strings.Contains(ans, "H-"+v), "answer": fmt.Sprintf("%.200s", ans)})
+		}
+	}
+	return out
+}
+
 // waitOrDeadlock waits for a workload; when it does not finish and goroutines are blocked on a lock inside the library, the
 // process dies the way a deadlocked program is reported (the registry operations of the statement always complete).
 func waitOrDeadlock(wait func(), d time.Duration, what string) {
@@ -92,7 +129,8 @@ func c12RunSched(id, kind string, seed int64, nworkers, nops, stormMs int, sched
 				return &mcp.GetPromptResult{Description: vs, Messages: []mcp.PromptMessage{}}, nil
 			})
 		case "resources":
-			srv.RegisterResource(&mcp.Resource{URI: "r://" + n, Name: n, Description: vs}, func(ctx context.Context, req *mcp.ReadResourceRequest) (mcp.ResourceContents, error) {
+			// the display name changes with every registration; the URI is the entry's identity
+			srv.RegisterResource(&mcp.Resource{URI: "r://" + n, Name: n + " (" + vs + ")", Description: vs}, func(ctx context.Context, req *mcp.ReadResourceRequest) (mcp.ResourceContents, error) {
 				return mcp.TextResourceContents{URI: "r://" + n, Text: vs}, nil
 			})
 		}
@@ -114,6 +152,7 @@ func c12RunSched(id, kind string, seed int64, nworkers, nops, stormMs int, sched
 		var m struct {
 			Result map[string][]struct {
 				Name        string `json:"name"`
+				URI         string `json:"uri"`
 				Description string `json:"description"`
 			} `json:"result"`
 		}
@@ -121,6 +160,9 @@ func c12RunSched(id, kind string, seed int64, nworkers, nops, stormMs int, sched
 		out := [][]interface{}{}
 		for _, l := range m.Result {
 			for _, e := range l {
+				if e.URI != "" {
+					e.Name = strings.TrimPrefix(e.URI, "r://")
+				}
 				out = append(out, []interface{}{e.Name, parseV(e.Description)})
 			}
 		}
@@ -374,11 +416,13 @@ func init() {
 		}
 		readInput(&in)
 		out := struct {
-			Results []c12Result   `json:"results"`
-			Notif   []c12NotifOut `json:"notif,omitempty"`
+			Results []c12Result              `json:"results"`
+			Notif   []c12NotifOut            `json:"notif,omitempty"`
+			Reuse   []map[string]interface{} `json:"reuse,omitempty"`
 		}{}
 		if in.Notif {
 			out.Notif = append(out.Notif, c12Notif("streamable"))
+			out.Reuse = c12Reuse()
 		}
 		for i, sc := range in.Scheds {
 			out.Results = append(out.Results, c12RunSched(fmt.Sprintf("g%s%d", sc.Kind[:1], i), sc.Kind, 1, 0, 0, 0, sc.Steps))
